@@ -20,6 +20,8 @@ from ..astutil import (
     call_recv,
     calls_in,
     dotted,
+    fstring_parts,
+    merge_consts,
     kwarg,
     names_in,
     norm,
@@ -1057,6 +1059,35 @@ def r6_12(ctx):
 
 
 
+def r6_13(ctx):
+    """A command the parser refuses is still a command the session sent: it is answered with a BAD that carries its tag
+    whenever the parser got as far as the tag (the command object keeps it) - `*` only when there is none.  Both callers of
+    parse() - the front end before LOGIN, the per-user process after it - build their BAD from `<command>.tag`.  An untagged
+    `* BAD` alone leaves the client waiting for a response with its tag for ever."""
+    p = ctx.p
+    n = 0
+    for key in ("server.IMAPSubprocessInterface.unauthenticated", "user_server.IMAPClientProxy.run"):
+        fi = p.func(key)
+        ctx.analysed(fi)
+        for t in [x for x in body_walk(fi.node) if isinstance(x, ast.Try)]:
+            hs = [h for h in t.handlers if h.type is not None and any(norm(tt).split(".")[-1] in ("BadCommand",) for tt in (h.type.elts if isinstance(h.type, ast.Tuple) else [h.type]))]
+            for h in hs:
+                n += 1
+                pushes = [c for c in ast.walk(h) if isinstance(c, ast.Call) and call_name(c) == "push"]
+                reads_tag = any(isinstance(x, ast.Attribute) and x.attr == "tag" for x in ast.walk(h))
+                tagged = False
+                for c in pushes:
+                    for a in c.args:
+                        parts = merge_consts(fstring_parts(a) or [])
+                        if parts and not isinstance(parts[0], str) and len(parts) > 1 and isinstance(parts[1], str) and parts[1].startswith(" BAD"):
+                            tagged = True
+                if pushes and reads_tag and tagged:
+                    ctx.ok("R6.13", where(fi), "a refused command is answered `<its tag> BAD ...` (`*` only when no tag was read)")
+                else:
+                    ctx.bad("R6.13", fi.module, fi.qual, norm(pushes[0], 70) if pushes else "except BadCommand", "a command the parser refuses is answered with an untagged `* BAD` only (the handler does not use the command's tag): the client waits for a response with that tag for ever", h.lineno)
+    ctx.floor("R6.13", n, 2, "BadCommand handlers of the callers of parse()")
+
+
 def run(ctx):
     ctx.do(r6_1)
     ctx.do(r6_2)
@@ -1070,6 +1101,7 @@ def run(ctx):
     ctx.do(r6_10)
     ctx.do(r6_11)
     ctx.do(r6_12)
+    ctx.do(r6_13)
     from . import c07 as _c07
     ctx.do(_c07.r7_8)  # one tagged reply per command: error texts cannot carry a line break into the reply
     from . import c01
